@@ -48,7 +48,7 @@ VARIABLES prog, phase, ast, text, ast2, text2
 vars == <<prog, phase, ast, text, ast2, text2>>
 
 (* C12's reference parser and printer for and/or/not (Expr.tla, unchanged); its variables play no part here *)
-C12 == INSTANCE Expr WITH MaxDepth <- 0, case <- prog, verdict <- phase
+C12 == INSTANCE Expr WITH MaxDepth <- 0, WithGroups <- FALSE, case <- prog, verdict <- phase
 
 -----------------------------------------------------------------------------
 (* data: variable -> sequence of values it takes; a valuation maps each variable to an index *)
